@@ -34,6 +34,14 @@ H = {
 }
 
 
+def check_snapshot(vm, node, res, prefix):
+    """the snapshot rule the rule selectors rely on: a CONDITION node records on itself (_is_false_) the flag of the result it yields,
+    before it yields (selectors read the truth of their operands off the nodes)"""
+    nf, rf = node.fields.get("_is_false_"), res.fields["is_false"]
+    from pyvc.ops import zbool
+    vm.ctx.check(f"{prefix}::a-condition-node-records-the-flag-it-yields", zbool(nf) == zbool(rf) if nf is not None else z3.BoolVal(False), detail=f"node {nf!r}, result {rf!r}")
+
+
 def binary_harness(cname, unique, below=None):
     """below: the class of the node that evaluates this one (None: evaluated directly); the cover contract of a node does not
     depend on who asks"""
@@ -54,6 +62,7 @@ def binary_harness(cname, unique, below=None):
             ctx.cover("yielded")
             cl = world.record(vm, res)
             check_cover_per_yield(vm, world, cl, h, prefix)
+            check_snapshot(vm, node, res, prefix)
             ctx.check(f"{prefix}::result-names-the-node-as-operand", z3.BoolVal(res.fields.get("operand") is node))
     def fin(ctxs):
         worlds = [c.world for c in ctxs if hasattr(c, "world")]
@@ -82,6 +91,7 @@ def not_harness(below=None):
             ctx.cover("yielded")
             cl = world.record(vm, res)
             check_cover_per_yield(vm, world, cl, h, prefix)
+            check_snapshot(vm, node, res, prefix)
 
     def fin(ctxs):
         worlds = [c.world for c in ctxs if hasattr(c, "world")]
@@ -200,6 +210,7 @@ def comparator_harness(op_kind):
             ctx.cover("yielded")
             cl = world.record(vm, res)
             check_cover_per_yield(vm, world, cl, h, prefix)
+            check_snapshot(vm, node, res, prefix)
             t = ctx.fresh_const("tau", Ts)
             ctx.check(f"{prefix}::binds-its-own-id-to-the-truth-value",
                       z3.And(bound(cl["b"], vid(10)), z3.Implies(ext(cl["b"], t), get(cl["b"], vid(10)) == boolval(h(t)))))
@@ -301,6 +312,8 @@ def variable_harness(role, below="AND"):
                 # domain enumeration is only a statement about operands / generators: in condition role the bound branch matters
                 hh = h if role == "operand" else (lambda t: z3.If(bound_before, truthy(tval(t, i)), z3.BoolVal(True)))
                 check_cover_per_yield(vm, world, cl, hh, prefix)
+                if role != "operand" and vm.ctx.branch(bound_before):
+                    check_snapshot(vm, node, res, prefix)          # (an unbound variable enumerates its domain: every result is true)
             ctx.check(f"{prefix}::binds-its-id-to-a-domain-element-or-keeps-the-given-binding",
                       z3.And(bound(cl["b"], i), z3.Or(bound(world.sigma0, i), DOM(get(cl["b"], i)))))
 
@@ -343,6 +356,8 @@ def attribute_harness(role, below="Not", kind="Attribute"):
             ctx.cover("yielded")
             cl = world.record(vm, res)
             check_cover_per_yield(vm, world, cl, h, prefix)
+            if role != "operand":
+                check_snapshot(vm, node, res, prefix)
             t = ctx.fresh_const("tau", Ts)
             ctx.check(f"{prefix}::binds-its-id-to-the-{'attribute' if kind == 'Attribute' else 'item' if kind == 'Index' else 'result'}-of-the-child-value",
                       z3.And(bound(cl["b"], vid(22)), z3.Implies(ext(cl["b"], t), get(cl["b"], vid(22)) == val(t))))
